@@ -1527,6 +1527,287 @@ theorem breakString_line_fits (mw : Nat) (te : Bool) (le input line : List Char)
       omega
     · exact Or.inr hu
 
+
+/-! ## re-breaking a re-broken literal (C02) -/
+
+/-- no backslash directly in front of a line feed or a carriage return: nothing for the continuation
+regex to find -/
+def noBsNl : List Char → Bool
+  | [] => true
+  | [_] => true
+  | c :: d :: r => !(c == '\\' && (d == '\n' || d == '\r')) && noBsNl (d :: r)
+
+/-- the text does not start with a line break (so a backslash in front of it is not a continuation) -/
+def headNotNl : List Char → Bool
+  | [] => true
+  | c :: _ => !(c == '\n' || c == '\r')
+
+/-- the text does not start with something a continuation swallows -/
+def headNotContWs : List Char → Bool
+  | [] => true
+  | c :: _ => !isContWs c
+
+theorem noBsNl_tail {c : Char} {r : List Char} (h : noBsNl (c :: r) = true) : noBsNl r = true := by
+  cases r with
+  | nil => rfl
+  | cons d r' => simp [noBsNl] at h; exact h.2
+
+theorem noBsNl_head_bs {r : List Char} (h : noBsNl ('\\' :: r) = true) : headNotNl r = true := by
+  cases r with
+  | nil => rfl
+  | cons d r' =>
+    simp only [noBsNl, beq_self_eq_true, Bool.true_and, Bool.and_eq_true, Bool.not_eq_eq_eq_not, Bool.not_true] at h
+    simp [headNotNl, h.1]
+
+theorem isContWs_of_nl {c : Char} (h : (c == '\n' || c == '\r') = true) : isContWs c = true := by
+  simp only [Bool.or_eq_true, beq_iff_eq] at h
+  rcases h with rfl | rfl <;> decide
+
+theorem stripGo_start_cons (c : Char) (r : List Char) :
+    stripGo .start (c :: r) = if c == '\\' then c :: stripGo .start r else c :: stripGo .even r := by
+  rw [stripGo]
+theorem stripGo_even_cons (c : Char) (r : List Char) :
+    stripGo .even (c :: r) = if c == '\\' then stripGo .odd r else c :: stripGo .even r := by
+  rw [stripGo]
+theorem stripGo_odd_cons (c : Char) (r : List Char) :
+    stripGo .odd (c :: r) = if c == '\\' then '\\' :: '\\' :: stripGo .even r
+      else if c == '\n' || c == '\r' then stripGo .space r else '\\' :: c :: stripGo .even r := by
+  rw [stripGo]
+theorem stripGo_space_cons (c : Char) (r : List Char) :
+    stripGo .space (c :: r) = if isContWs c then stripGo .space r
+      else if c == '\\' then stripGo .spaceBs r else c :: stripGo .even r := by
+  rw [stripGo]
+theorem stripGo_spaceBs_cons (c : Char) (r : List Char) :
+    stripGo .spaceBs (c :: r) = if c == '\n' || c == '\r' then stripGo .space r
+      else if c == '\\' then '\\' :: '\\' :: stripGo .start r else '\\' :: c :: stripGo .even r := by
+  rw [stripGo]
+
+/-- On a text without backslash–line-break the matcher copies, whatever its state. -/
+theorem strip_id : ∀ (l : List Char), noBsNl l = true →
+    stripGo .start l = l ∧ stripGo .even l = l ∧
+    (headNotNl l = true → stripGo .odd l = '\\' :: l ∧ stripGo .spaceBs l = '\\' :: l) ∧
+    (headNotContWs l = true → stripGo .space l = l)
+  | [], _ => by simp [stripGo]
+  | c :: r, h => by
+    have ih := strip_id r (noBsNl_tail h)
+    by_cases hc : c = '\\'
+    · subst hc
+      have hr := noBsNl_head_bs h
+      have hodd := ih.2.2.1 hr
+      refine ⟨?_, ?_, ?_, ?_⟩
+      · simp only [stripGo, beq_self_eq_true, if_true, ih.1]
+      · simp only [stripGo, beq_self_eq_true, if_true, hodd.1]
+      · intro _
+        have h2 : ('\\' == '\n' || '\\' == '\r') = false := by decide
+        simp only [stripGo, beq_self_eq_true, if_true, h2, Bool.false_eq_true, if_false, ih.1, ih.2.1, and_self]
+      · intro _
+        simp only [stripGo, isContWs_backslash, Bool.false_eq_true, if_false, beq_self_eq_true, if_true, hodd.2]
+    · have hb : (c == '\\') = false := by simpa using hc
+      refine ⟨?_, ?_, ?_, ?_⟩
+      · simp only [stripGo, hb, Bool.false_eq_true, if_false, ih.2.1]
+      · simp only [stripGo, hb, Bool.false_eq_true, if_false, ih.2.1]
+      · intro hh
+        have hnl : (c == '\n' || c == '\r') = false := by simpa [headNotNl] using hh
+        simp only [stripGo, hb, hnl, Bool.false_eq_true, if_false, ih.2.1, and_self]
+      · intro hh
+        have hw : isContWs c = false := by simpa [headNotContWs] using hh
+        simp only [stripGo, hw, hb, Bool.false_eq_true, if_false, ih.2.1]
+
+/-- A piece without backslash–line-break that does not end in a backslash is copied and leaves the matcher
+ready for a match (`even`), whatever comes behind it. -/
+theorem strip_copy : ∀ (l x : List Char), noBsNl l = true → (∃ l' z, l = l' ++ [z] ∧ z ≠ '\\') →
+    stripGo .start (l ++ x) = l ++ stripGo .even x ∧ stripGo .even (l ++ x) = l ++ stripGo .even x ∧
+    (headNotNl l = true → stripGo .odd (l ++ x) = '\\' :: (l ++ stripGo .even x) ∧
+      stripGo .spaceBs (l ++ x) = '\\' :: (l ++ stripGo .even x)) ∧
+    (headNotContWs l = true → stripGo .space (l ++ x) = l ++ stripGo .even x)
+  | [], x, _, hl => by
+    obtain ⟨l', z, h, _⟩ := hl
+    simp at h
+  | [c], x, _, hl => by
+    obtain ⟨l', z, h, hz⟩ := hl
+    have hc : c ≠ '\\' := by
+      cases l' with
+      | nil => simp at h; subst h; exact hz
+      | cons a l'' => simp at h
+    have hb : (c == '\\') = false := by simpa using hc
+    refine ⟨?_, ?_, ?_, ?_⟩
+    · simp only [List.cons_append, List.nil_append, stripGo, hb, Bool.false_eq_true, if_false]
+    · simp only [List.cons_append, List.nil_append, stripGo, hb, Bool.false_eq_true, if_false]
+    · intro hh
+      have hnl : (c == '\n' || c == '\r') = false := by simpa [headNotNl] using hh
+      simp only [List.cons_append, List.nil_append, stripGo, hb, hnl, Bool.false_eq_true, if_false, and_self]
+    · intro hh
+      have hw : isContWs c = false := by simpa [headNotContWs] using hh
+      simp only [List.cons_append, List.nil_append, stripGo, hw, hb, Bool.false_eq_true, if_false]
+  | c :: d :: r, x, h, hl => by
+    have hl' : ∃ l' z, d :: r = l' ++ [z] ∧ z ≠ '\\' := by
+      obtain ⟨l', z, heq, hz⟩ := hl
+      cases l' with
+      | nil => simp at heq
+      | cons a l'' =>
+        simp only [List.cons_append, List.cons.injEq] at heq
+        exact ⟨l'', z, heq.2, hz⟩
+    have ih := strip_copy (d :: r) x (noBsNl_tail h) hl'
+    have e1 : ('\\' :: d :: r) ++ x = '\\' :: ((d :: r) ++ x) := rfl
+    have e2 : (c :: d :: r) ++ x = c :: ((d :: r) ++ x) := rfl
+    by_cases hc : c = '\\'
+    · subst hc
+      have hr := noBsNl_head_bs h
+      have hodd := ih.2.2.1 hr
+      refine ⟨?_, ?_, ?_, ?_⟩
+      · rw [e1, stripGo_start_cons, ih.1]; simp
+      · rw [e1, stripGo_even_cons, hodd.1]; simp
+      · intro _
+        rw [e1, stripGo_odd_cons, stripGo_spaceBs_cons, ih.1, ih.2.1]
+        simp
+      · intro _
+        rw [e1, stripGo_space_cons, hodd.2]
+        simp [isContWs_backslash]
+    · have hb : (c == '\\') = false := by simpa using hc
+      refine ⟨?_, ?_, ?_, ?_⟩
+      · rw [e2, stripGo_start_cons, ih.2.1]; simp [hb]
+      · rw [e2, stripGo_even_cons, ih.2.1]; simp [hb]
+      · intro hh
+        have hnl : (c == '\n' || c == '\r') = false := by simpa [headNotNl] using hh
+        rw [e2, stripGo_odd_cons, stripGo_spaceBs_cons, ih.2.1]
+        simp [hb, hnl]
+      · intro hh
+        have hw : isContWs c = false := by simpa [headNotContWs] using hh
+        rw [e2, stripGo_space_cons, ih.2.1]
+        simp [hb, hw]
+
+
+theorem noBsNl_append : ∀ (a b : List Char), noBsNl (a ++ b) = true → noBsNl a = true ∧ noBsNl b = true
+  | [], b, h => ⟨rfl, h⟩
+  | [c], b, h => ⟨rfl, noBsNl_tail h⟩
+  | c :: d :: r, b, h => by
+    have h' : noBsNl (c :: d :: (r ++ b)) = true := h
+    simp only [noBsNl, Bool.and_eq_true] at h'
+    have ih := noBsNl_append (d :: r) b h'.2
+    refine ⟨?_, ih.2⟩
+    simp only [noBsNl, Bool.and_eq_true]
+    exact ⟨h'.1, ih.1⟩
+
+theorem stripGo_space_ws (ws y : List Char) (h : ws.all isContWs = true) :
+    stripGo .space (ws ++ y) = stripGo .space y := by
+  induction ws with
+  | nil => rfl
+  | cons c r ih =>
+    simp only [List.all_cons, Bool.and_eq_true] at h
+    rw [List.cons_append, stripGo_space_cons, h.1]
+    simp only [if_true]
+    exact ih h.2
+
+/-- what stripping gives again on what the loop appended: the input it was given -/
+def Restrips (mid rem : List Char) : Prop :=
+  stripGo .start mid = rem ∧ stripGo .even mid = rem ∧ (headNotContWs rem = true → stripGo .space mid = rem)
+
+theorem restrips_self {l : List Char} (h : noBsNl l = true) : Restrips l l :=
+  ⟨(strip_id l h).1, (strip_id l h).2.1, (strip_id l h).2.2.2⟩
+
+/-- a piece, then (optionally after a line continuation) something that strips to the rest -/
+theorem restrips_piece {l rest mid' : List Char} (hl : noBsNl l = true) (hlast : ∃ l' z, l = l' ++ [z] ∧ z ≠ '\\')
+    (hrest : stripGo .even mid' = rest) : Restrips (l ++ mid') (l ++ rest) := by
+  have hc := strip_copy l mid' hl hlast
+  refine ⟨by rw [hc.1, hrest], by rw [hc.2.1, hrest], ?_⟩
+  intro hh
+  have : headNotContWs l = true := by
+    obtain ⟨l', z, rfl, _⟩ := hlast
+    cases l' <;> simpa [headNotContWs] using hh
+  rw [hc.2.2.2 this, hrest]
+
+/-- The loop of `rewrite_string` in the format of a string literal, on a text without
+backslash–line-break: stripping what it appended gives back what it was given. -/
+theorem loop_restrip (k : LoopCfg) (hk : StringLike k) : ∀ (fuel : Nat) (rem acc : List Char) (curMax : Nat)
+    (acc' : List Char), noBsNl rem = true → loop k fuel rem acc curMax = some acc' →
+    ∃ mid, acc' = mid.reverse ++ acc ∧ Restrips mid rem
+  | 0, _, _, _, _, _, h => by simp [loop] at h
+  | fuel + 1, rem, acc, curMax, acc', hno, h => by
+    unfold loop at h
+    split at h
+    · cases h
+      refine ⟨rem, ?_, restrips_self hno⟩
+      rw [pushFit_verbatim k hk.trim hk.bare]
+      simp [trimEndButLf, hk.trim]
+    · have hs := breakString_step curMax k.trimEnd k.lineEnd rem
+      rw [hk.trim] at hs
+      split at h
+      · rename_i line len heq
+        rw [hk.trim] at heq
+        rw [heq] at hs
+        cases hs with
+        | lineTrim _ _ hte => cases hte
+        | line _ _ h1 hnonl hlast hnext =>
+          have hsplit := noBsNl_append (rem.take len) (rem.drop len) (by rw [List.take_append_drop]; exact hno)
+          obtain ⟨mid', hacc, hq⟩ := loop_restrip k hk fuel _ _ _ _ hsplit.2 h
+          obtain ⟨t, hnl, ht⟩ := hk.indent
+          obtain ⟨c, hc, hcb⟩ := hlast
+          obtain ⟨d, hd, hdws⟩ := hnext
+          have hn : len - 1 + 1 = len := by omega
+          have htake : rem.take len = rem.take (len - 1) ++ [c] := by
+            have := take_succ_of_getElem? hc
+            rwa [hn] at this
+          have hdrop : rem.drop len = d :: rem.drop (len + 1) := drop_eq_cons_of_getElem? hd
+          have hhead : headNotContWs (rem.drop len) = true := by
+            rw [hdrop]
+            cases hcw : isContWs d with
+            | false => simp [headNotContWs, hcw]
+            | true => rw [isWs_of_isContWs hcw] at hdws; cases hdws
+          refine ⟨rem.take len ++ ('\\' :: '\n' :: (t ++ k.lineStart ++ mid')), ?_, ?_⟩
+          · rw [hacc, hk.lineEnd, hnl]
+            simp [pushStr]
+          · have hall : (t ++ k.lineStart).all isContWs = true := by
+              rw [List.all_append, ht, hk.lineStart]; rfl
+            have hsep : stripGo .even ('\\' :: '\n' :: (t ++ k.lineStart ++ mid')) = rem.drop len := by
+              rw [stripGo_even_cons, stripGo_odd_cons]
+              have h1 : ('\n' == '\\') = false := by decide
+              simp only [h1, Bool.false_eq_true, if_false, beq_self_eq_true, Bool.true_or, if_true]
+              rw [stripGo_space_ws _ _ hall, hq.2.2 hhead]
+            have := restrips_piece (mid' := '\\' :: '\n' :: (t ++ k.lineStart ++ mid')) hsplit.1
+              ⟨_, _, htake, hcb⟩ hsep
+            rwa [List.take_append_drop] at this
+      · rename_i line len heq
+        rw [hk.trim] at heq
+        rw [heq] at hs
+        cases hs with
+        | feedTrim _ hte => cases hte
+        | feed _ _ h1 hnl =>
+          simp only [hk.bare, if_true] at h
+          have hsplit := noBsNl_append (rem.take len) (rem.drop len) (by rw [List.take_append_drop]; exact hno)
+          obtain ⟨mid', hacc, hq⟩ := loop_restrip k hk fuel _ _ _ _ hsplit.2 h
+          refine ⟨rem.take len ++ mid', ?_, ?_⟩
+          · rw [hacc]
+            simp [feedAcc, hk.trim, pushStr]
+          · have hn : len - 1 + 1 = len := by omega
+            have htake : rem.take len = rem.take (len - 1) ++ ['\n'] := by
+              have := take_succ_of_getElem? hnl
+              rwa [hn] at this
+            have := restrips_piece (mid' := mid') hsplit.1 ⟨_, _, htake, by decide⟩ hq.2.1
+            rwa [List.take_append_drop] at this
+      · rename_i line heq
+        rw [hk.trim] at heq
+        rw [heq] at hs
+        cases h
+        cases hs with
+        | eoi => exact ⟨rem, by simp [pushStr], restrips_self hno⟩
+
+/-- Stripping the continuations of a re-broken literal gives back the text that was broken: the second
+pass of `rewrite_string` starts from the same graphemes as the first. -/
+theorem rewriteRaw_restrip (k : LoopCfg) (hk : StringLike k) (opener closer orig r : List Char)
+    (hno : noBsNl orig = true) (h : rewriteRaw k opener closer orig = some r) :
+    ∃ body, r = opener ++ body ++ closer ∧ stripLineBreaks body = orig ∧ stripLineBreaks orig = orig := by
+  have hid : stripLineBreaks orig = orig := (strip_id orig hno).1
+  unfold rewriteRaw at h
+  simp only [hid] at h
+  cases hl : loop k (orig.length + 1) orig opener.reverse k.mwWith with
+  | none => simp [hl] at h
+  | some acc' =>
+    simp only [hl, Option.some.injEq] at h
+    obtain ⟨mid, hacc, hq⟩ := loop_restrip k hk _ _ _ _ _ hno hl
+    refine ⟨mid, ?_, hq.1, hid⟩
+    rw [← h, hacc]
+    simp [pushStr]
+
 /-! ## from a `StringFormat` to the constants of the loop -/
 
 theorem all_isContWs_replicate_tab (n : Nat) : (List.replicate n '\t').all isContWs = true := by
